@@ -178,6 +178,10 @@ func (i *Index) unmarshalBinary(data []byte) error {
 		return fmt.Errorf("failed to read capacity: %w", err)
 	}
 	i.capacity = slottools.Uint64FromLEBytes(capacityBuf)
+	if i.capacity > uint64(reader.Len())/4 {
+		// The capacity comes from the file: it cannot exceed the number of 4-byte values that follow.
+		return fmt.Errorf("capacity %d exceeds the %d values present", i.capacity, reader.Len()/4)
+	}
 
 	i.values = make([]int64, i.capacity)
 	for j := uint64(0); j < i.capacity; j++ {
